@@ -33,9 +33,13 @@ type CustomScan struct {
 
 type rec struct{ Comp, Field, Val, Args string }
 
+// customNodeType: the user scanner files its properties under the built-in Configuration type in every second
+// process run (a field carrying both a built-in configuration tag and the custom tag then has two properties of one type).
+var customNodeType component_definition.PropertyType = component_definition.PropertyTypeConfiguration
+
 // newScan: a user scanner with a tag AND an extract handler (fields carrying `alt:"v"` are accepted as mytag:"v").
 func newScan() *CustomScan {
-	return &CustomScan{processors.DefaultTagScanDefinitionRegistryPostProcessor{NodeType: "custom", Tag: "mytag",
+	return &CustomScan{processors.DefaultTagScanDefinitionRegistryPostProcessor{NodeType: customNodeType, Tag: "mytag",
 		ExtractHandler: func(meta *component_definition.Meta, field *component_definition.Field) (tag, tagVal string, ok bool) {
 			tagVal, ok = field.StructField.Tag.Lookup("alt")
 			return "mytag", tagVal, ok
@@ -109,7 +113,7 @@ func genLeaf(t *rapid.T, i int) leaf {
 		name = fmt.Sprintf("f%d", i)
 	}
 	l := leaf{Name: name, Exported: exported}
-	switch rapid.IntRange(0, 13).Draw(t, "leafkind") {
+	switch rapid.IntRange(0, 14).Draw(t, "leafkind") {
 	case 0:
 		l.Kind, l.Type, l.Tag = "wire", tIAll, `wire:"n1"`
 	case 1:
@@ -144,6 +148,12 @@ func genLeaf(t *rapid.T, i int) leaf {
 		}
 		l.Want = "custom:" + l.CVal
 		l.CArgs = items
+	case 14:
+		// two recognised tags on one field: the value is bound first, the custom processor (Order 100) runs later and has the last word
+		l.Kind, l.Type = "custom", tString
+		l.CVal = rapid.SampledFrom([]string{"v1", "v2"}).Draw(t, "cval2")
+		l.Tag = `value:"lit" mytag:` + strconv.Quote(l.CVal)
+		l.Want = "custom:" + l.CVal
 	case 12:
 		l.Kind, l.Type, l.Tag = "foreign", rapid.SampledFrom([]reflect.Type{tString, tInt, tPA, tIAll}).Draw(t, "ftype"), `json:"zzz" yaml:"wire"`
 	default:
@@ -528,3 +538,54 @@ type dumpT struct {
 }
 
 func (d *dumpT) Fatalf(f string, a ...any) { d.failed = true; d.msg = fmt.Sprintf(f, a...); panic(d) }
+
+
+// ---- the same struct type embedded twice in one component (diamond) -----------------------------
+
+type Common struct {
+	Dep zoo.IAll `wire:"n1"`
+	Val string   `value:"lit"`
+	Cus string   `mytag:"v1,arg=x y"`
+}
+type Left struct{ Common }
+type Right struct {
+	Common
+	R int `value:"42"`
+}
+type Diamond struct {
+	Left
+	Right
+	Top string `value:"lit"`
+}
+
+func TestStaticDiamondEmbedding(t *testing.T) {
+	kit.Rec.Rule(rule)
+	for round := 0; round < 10; round++ {
+		d := &Diamond{}
+		pp := &CustomPP{}
+		comps := append(providers(), d, pp, newScan())
+		out := kit.RunApp(app.SetComponents(comps...), app.SetConfigLoader(loader.NewRawLoader([]byte(cfg))))
+		if !out.OK() {
+			t.Fatalf("C11: start failed: %v", out)
+		}
+		for which, c := range map[string]Common{"Left.Common": d.Left.Common, "Right.Common": d.Right.Common} {
+			if c.Dep == nil || c.Val != "lit" || c.Cus != "custom:v1" {
+				kit.DumpReplay("c11-diamond", map[string]any{"which": which, "value": fmt.Sprintf("%+v", c)})
+				t.Fatalf("C11: the copy %s of a struct type that is embedded twice was not processed like the other: %+v", which, c)
+			}
+		}
+		if d.R != 42 || d.Top != "lit" {
+			t.Fatalf("C11: fields next to the embedded copies not processed: %+v", d)
+		}
+		n := 0
+		for _, r := range pp.seen {
+			if r.Field == "Cus" && r.Val == "v1" && r.Args == "Arg=x y" {
+				n++
+			}
+		}
+		if n != 2 {
+			t.Fatalf("C11: the custom tag processor received the field Cus %d times, it is declared in 2 embedded copies (%v)", n, pp.seen)
+		}
+		kit.Rec.Case(fmt.Sprintf("static diamond Diamond{Left{Common} Right{Common R} Top} round %d", round%2), true, "static-diamond")
+	}
+}
